@@ -23,14 +23,14 @@ import os
 import sys
 import time
 
-from harness import framework, tlc, c04
+from harness import framework, tlc, c03, c04
 
 KNOWN_ENDIAN = "C04:T:ChosenMostConstrained/EndianAtBuild:arm.cpu_armv7/thumb/be"
 
 
 def run_models(ctx, cfgs, workers):
     def one(cfg):
-        return cfg, tlc.run("DecTree", cfg, workers=workers, tag="c04" + cfg[:-4], timeout=7200)
+        return cfg, tlc.run("DecTree", cfg, workers=workers, tag="c04" + cfg[:-4], timeout=7200, xmx="4g", env=c03.jvm_env(workers))
     with mp.pool.ThreadPool(len(cfgs)) as tp:
         for cfg, res in tp.map(one, cfgs):
             ctx.add_tlc(res, "M:" + cfg)
@@ -41,7 +41,7 @@ def gen_and_replay(ctx, cfg, kind, simulate=None, depth=None):
     wd = tlc.workdir("c04_" + kind)
     spool = os.path.join(wd, "beh.spool")
     res = tlc.run("DecTree", cfg, simulate=simulate, depth=depth, seed=ctx.seed if simulate else None,
-                  spool=spool, tag="c04" + kind, timeout=7200)
+                  spool=spool, tag="c04" + kind, timeout=7200, xmx="4g", env=c03.jvm_env(8))
     ctx.add_tlc(res, "G:" + cfg)
     chunks = tlc.spool_chunks(spool, 64)
     with mp.Pool(min(tlc.NCPU, max(1, len(chunks)))) as pool:
@@ -73,7 +73,7 @@ def gen_and_replay(ctx, cfg, kind, simulate=None, depth=None):
 
 def validate_shard(args):
     path, tag = args
-    return tlc.run("DecTreeTrace", "DecTreeTrace.cfg", workers=1, env={"TRACE_FILE": path}, tag=tag,
+    return tlc.run("DecTreeTrace", "DecTreeTrace.cfg", workers=1, env=c03.jvm_env(1, {"TRACE_FILE": path}), tag=tag,
                    timeout=7200, xmx="3g")
 
 
@@ -233,7 +233,7 @@ def run(ctx):
             run_models(ctx, ["DecTreeMC_thorough.cfg", "DecTreeMC_thorough2.cfg", "DecTreeMC_thorough3.cfg", "DecTreeMC_quick3.cfg",
                              "DecTreeMC_any_thorough.cfg"], workers=4)
         for cfg, fault in (("DecTreeMC_dev.cfg", "NoAdjustInSetup"), ("DecTreeMC_dev2.cfg", "DropLastOfBigClass")):
-            res = tlc.run("DecTree", cfg, expect_violation=True, tag="c04dev", workers=2)
+            res = tlc.run("DecTree", cfg, expect_violation=True, tag="c04dev", workers=2, xmx="2g", env=c03.jvm_env(2))
             if not res.violation or "Inv" not in res.violation:
                 raise tlc.MachineryError("self-test: fault %s did not violate Inv (invariant vacuous?)" % fault)
             ctx.note("selftest_fault_%s" % fault, res.violation)
